@@ -468,6 +468,9 @@ def run(ctx):
     ctx.count("discharged_by_lemma", n_lem)
     ctx.floor("C11-R1", "obligations", n_ob, 50)
 
+    ctx.rule("C11-R6", "the QPACK stream drains never spin: end of stream / read errors leave the loop with the prescribed error")
+    shared.qpack_runner_tables(ctx, "C11-R6")
+
     ctx.rule("C11-R2", "allocation bound: sizes derived from the wire are capped (4096) or bounded by a completed read before allocating")
     f = A.fn("wtransport_proto::frame::Frame::read_async::{closure#0}")
     cap = const_int(A, "wtransport_proto::frame::Frame::MAX_PARSE_PAYLOAD_ALLOWED")
